@@ -43,7 +43,7 @@ const DROP: &[&str] = &[
     "version", "serial", "hash", "validity", "since", "last_key_change", "revision", "revocations",
     "expires", "this_update", "next_update", "time", "timestamp", "last_exchange", "last_success",
     "manifest", "crl", "id", "id_cert", "session", "cmds", "tasks", "ret", "rrdp", "not_after",
-    "not_before", "user_agent", "now", "t0", "next_class_name", "old_repo", "ta_signer", "ta_proxy", "marker",
+    "not_before", "user_agent", "now", "t0", "per_ca", "quiescent", "n_accepted", "next_class_name", "old_repo", "ta_signer", "ta_proxy", "marker",
 ];
 
 fn erase_tokens(s: &str) -> String {
@@ -145,7 +145,9 @@ fn entity_of(op: &str) -> Vec<String> {
     let w: Vec<&str> = op.split_whitespace().collect();
     match w.as_slice() {
         ["ca", a] | ["roa", a, ..] | ["aspa", a, ..] | ["bgpsec", a, ..] | ["rollinit", a] | ["rollactivate", a]
-        | ["updateid", a] | ["reposync", a] | ["cadelete", a] => vec![a.to_string()],
+        | ["updateid", a] | ["reposync", a] => vec![a.to_string()],
+        // deleting a CA is not an event-sourced command: no (log, state) pair to judge
+        ["cadelete", _] => vec![],
         ["child", p, c, _] | ["childres", p, c, _] | ["childrm", p, c] | ["childsuspend", p, c] | ["childunsuspend", p, c]
         | ["childmap", p, c, _, _] => vec![p.to_string(), c.to_string()],
         ["sync", c, p] | ["parentrm", c, p] => vec![c.to_string(), p.to_string()],
@@ -157,7 +159,7 @@ fn succ_cmds(obs: &Value, ents: &[String]) -> usize {
     obs.get("cmds").and_then(|c| c.as_array()).map(|a| {
         a.iter().filter(|c| {
             let e = c.get("entity").and_then(|e| e.as_str()).unwrap_or("");
-            c.get("result").and_then(|r| r.as_str()) == Some("success")
+            matches!(c.get("result").and_then(|r| r.as_str()), Some("success") | Some("init"))
                 && ents.iter().any(|x| e == format!("cas:{x}"))
         }).count()
     }).unwrap_or(0)
@@ -223,6 +225,7 @@ fn dry_run(m: &Main, domain: &str, op: &str, with_pump: bool) -> Dry {
         fs.iter().map(|(k, p, _)| format!("{k}:{}", canon_path(&p.display().to_string().replace(&root, "")))).collect()
     };
     let ret = o.get("ret").and_then(|r| r.as_str()).map(|s| s.to_string()).unwrap_or_default();
+    s.exec("pumpall");
     let fin = obs_json(&mut s);
     Dry { muts, twin: semantic(&fin), ret, ents }
 }
@@ -272,6 +275,9 @@ fn fault_line(m: &mut Main, mode: &str, domain: &str, which: &str, op: &str, out
         // the scheduler keeps running until the cut (crash) / after the failed write (once)
         s.exec("pump");
         let sched_exits = krill::verif::sched::take_exits();
+        let root = s.scratch().path().display().to_string();
+        let failed: Vec<String> = krill::verif::kvfault::failed().iter().take(3)
+            .map(|(k, w)| format!("{k}:{}", canon_path(&w.replace(&root, "")))).collect();
         let fired = disarm(domain);
         // The instant right after the cut: for a crash what a fresh instance finds in storage,
         // for a single failed write what the still-running instance shows right after the op.
@@ -299,6 +305,10 @@ fn fault_line(m: &mut Main, mode: &str, domain: &str, which: &str, op: &str, out
             let n_logged = succ_cmds(&o1, &one);
             let st = proj(&at_cut, "cas", &one);
             let ob = proj(&at_cut, "objects", &one);
+            if std::env::var("FAULT_DEBUG").is_ok() {
+                eprintln!("ENT {e}: state diff vs before: {}", first_diff(&proj(&before, "cas", &one), &st, ""));
+                eprintln!("ENT {e}: objects diff vs before: {}", first_diff(&proj(&before, "objects", &one), &ob, ""));
+            }
             ent_rep.insert(e.clone(), json!({
                 "n_logged": n_logged, "n_total": total,
                 "state_is_before": st == proj(&before, "cas", &one), "state_is_after": st == st_after,
@@ -311,16 +321,22 @@ fn fault_line(m: &mut Main, mode: &str, domain: &str, which: &str, op: &str, out
         if !ret1.starts_with("ok") {
             let (_, o2) = s.exec(op);
             resubmit = ret_of(&serde_json::from_str(&o2).unwrap_or(Value::Null));
-            s.exec("pump");
         }
+        s.exec("pumpall");
         tick("resubmitted");
         let fin = semantic(&obs_json(&mut s));
         let same = fin == dry.twin;
         let diff = if same { Value::Null } else { json!(first_diff(&dry.twin, &fin, "")) };
         let line = format!("faultcut {mode} {domain} {n} :: {op}");
         let obs = json!({
-            "muts": muts, "cut": n, "fired": fired, "sched_exits": sched_exits, "restarted": restarted,
+            "muts": muts, "cut": n, "fired": fired, "failed": failed, "sched_exits": sched_exits, "restarted": restarted,
             "ret": ret1, "twin_ret": dry.ret, "load_problems": problems, "ents": ent_rep,
+            "rp_problems_at_cut": Value::Array(at_cut.get("rp").and_then(|r| r.get("problems")).and_then(|p| p.as_array()).map(|a| {
+                a.iter().filter(|p| matches!(p.get("kind").and_then(|k| k.as_str()).unwrap_or(""),
+                    "missing" | "hash-mismatch" | "crl-missing" | "multiple-crls" | "decode-error" | "bad-signature"
+                    | "invalid-object" | "duplicate-entry" | "panic")).cloned().collect::<Vec<_>>()
+            }).unwrap_or_default()),
+            "ent_names": ents,
             "resubmit": resubmit, "converged": same, "diff": diff,
         });
         writeln!(out, "{line} => {obs}").unwrap();
